@@ -29,13 +29,18 @@ ASSUMPTIONS = ['prefix removal only when no hook lies under the removed prefix',
                'as C01: no rex selector, distinct wildcard names, ASCII method names']
 
 RULES = ['/a', '/a/b', '/a/b/c', '/a/<x>', '/a/<x>/c', '/ab', '/abc', '/a/<v:int>', '/p/<y:path>/e', '/p/q', '/<z>',
-         '/a/b/<w>', '/', '/p/*']        # '/p/*' is a LITERAL rule; remove('/p/*') is the prefix removal of 'p/'
+         '/a/b/<w>', '/', '/p/*',        # '/p/*' is a LITERAL rule; remove('/p/*') is the prefix removal of 'p/'
+         # _try_merge guards: a wildcard node left with ONE child must not be merged with it (it carries the filter),
+         # nor a literal node whose single remaining child is the wildcard node
+         '/i/<id:int>/edit', '/i/<id:int>.json', '/m/<x>', '/m/lit', '/m/<x>/k']
+MERGE_FAMILY = ['/i/<id:int>/edit', '/i/<id:int>.json', '/m/<x>', '/m/lit', '/m/<x>/k', '/a/<x>/c', '/a/<x>', '/a/b']
 ALT = {'/a/<x>': '/a/<x2>', '/a/<x>/c': '/a/:k/c', '/<z>': '/{zz}'}        # same pattern, other names
 HOOKS = ['/a', '/a/b', '/a/<x>', '/p', '/a/b/c/d', '/ab', '/']
 PREFIXES = ['/a/*', '/a*', '/a/b*', '/*', '/p/*', '/ab*', '/a/b/*', '/zz*']
 NAMES = ['n1', 'n2', 'n3']
 PATHS = ['/a', '/a/b', '/a/b/c', '/a/q', '/a/q/c', '/a/12', '/ab', '/abc', '/abd', '/p/q', '/p/x/y/e', '/p', '/zz', '/',
-         '/a/b/c/d', '/a/b/zz', '/a//c', '/a/b/', '/a/\r/c', '/p/*']
+         '/a/b/c/d', '/a/b/zz', '/a//c', '/a/b/', '/a/\r/c', '/p/*',
+         '/i/5/edit', '/i/5.json', '/i/x/edit', '/i/5', '/m/lit', '/m/zz', '/m/zz/k']
 
 
 def _pat(rule):
@@ -96,6 +101,13 @@ def corpus():
     # F33 witness: a route whose rule ends in '*' removed by name is removed exactly; by rule it is the prefix removal
     cs.append(_with_probes([A('/p/q', 1), A('/p/*', 2, name='n1'), A('/p/<y:path>/e', 3), dict(op='remove_name', name='n1'),
                             A('/p/*', 4, name='n2'), dict(op='remove', rule='/p/*'), A('/p/q', 5)], full=True))
+    # _try_merge guards: two rules through one filtered wildcard, nothing AT the wildcard; remove one of them -> the
+    # wildcard node keeps its filter (never merged with its remaining child); and a literal node whose only remaining
+    # child is the wildcard node
+    cs.append(_with_probes([A('/i/<id:int>/edit', 1), A('/i/<id:int>.json', 2), dict(op='remove', rule='/i/<id:int>.json'),
+                            A('/m/<x>', 3), A('/m/lit', 4), dict(op='remove', rule='/m/lit'),
+                            A('/m/<x>/k', 5), dict(op='remove', rule='/m/<x>'), dict(op='remove', rule='/i/<id:int>/edit')],
+                           full=True))
     # wildcard siblings, filter conflict, shared pattern with other names, method removal
     cs.append(_with_probes([A('/a/<x>', 1), A('/a/<v:int>', 2), A('/a/<x2>', 3, ('POST',)), A('/a/b', 4),
                             dict(op='remove_method', rule='/a/<x>', methods=['GET']), dict(op='remove', rule='/a/<x2>'),
@@ -109,7 +121,7 @@ def _gen_ops(rng, n, admissible=True):
     for _ in range(n):
         r = rng.random()
         if r < 0.38:
-            rule = rng.choice(RULES)
+            rule = rng.choice(RULES if rng.random() < 0.75 else MERGE_FAMILY)
             prev = [o for o in ops if o['op'] == 'add']
             if prev and rng.random() < 0.3:
                 rule = prev[-1]['rule']          # same route again: another method / another NAME (aliases)
@@ -119,7 +131,8 @@ def _gen_ops(rng, n, admissible=True):
             ops.append(dict(op='add', rule=rule, methods=ms, h=rng.randrange(1, 9),
                             name=rng.choice([None, None] + NAMES), overwrite=rng.random() < 0.25))
         elif r < 0.55:
-            ops.append(dict(op='remove', rule=rng.choice(RULES)))
+            added = [o['rule'] for o in ops if o['op'] == 'add']
+            ops.append(dict(op='remove', rule=rng.choice(added) if added and rng.random() < 0.5 else rng.choice(RULES)))
         elif r < 0.63:
             pre = rng.choice(PREFIXES)
             P = _pat(pre)[:-1]
@@ -371,29 +384,28 @@ def _star_rule_removed_by_name(case, what, m):
 PREDICATES = {'star_rule_removed_by_name': _star_rule_removed_by_name}
 
 MANIFEST = dict(
-    text=('Proof (Coq, every theorem closed under the global context, no depth bound). For ALL histories (add / overwrite / '
-          'rejected add incl. the name conflict that has already inserted its route / remove by rule, name, prefix "*" / add '
-          'and remove hook / remove_method): C11_remove_exact_effect (RadiDict.remove in every mode, with pruning and '
-          '_try_merge, keeps the tree well-formed and removes exactly the named routes), C11_hook_install_keeps_routes, '
-          'C11_history_tree_matches_index, C11_history_eq_fresh_partial (every path resolves as the rule-by-rule spec on the '
-          'surviving index — the equation C01 proves for a freshly built router). Hook slots: '
-          'C11_lookup_collects_held_hooks (on any well-formed tree a lookup collects exactly the hooks held under the '
-          'prefixes of the selected pattern, outermost first, with positions), C11_hook_slots_insert, '
-          'C11_remove_keeps_hooks (route removal keeps every hook = repaired F14; remove_hook removes exactly its hook). '
-          'For all histories WITHOUT prefix-"*" removals: C11_hooks_fire_exactly_partial (hooks collected = hooks-index '
-          'entries whose pattern is a prefix of the matched route, outermost first, at the position after the prefix) and '
-          'C11_same_survivors_same_answers_partial (two reachable routers with the same surviving routes and hooks answer '
-          'every request identically: route, handler, kwargs, hook list). NOT proved (full statements kept in '
-          'coq/props/C11.v): the hook-slot view of the prefix cut; that replaying the surviving indexes on an empty router '
-          'is accepted and reproduces them (the last step to the literal fresh-router equality); the by-rule lookup '
-          'equality. These are covered by the model/implementation correspondence after EVERY operation of generated '
-          'histories and by the oracle, which rebuilds a fresh real router from the surviving indexes after every '
-          'operation and compares resolve (direct and through Ombott.__call__, hooks fired), router[name], router[{rule}] '
-          'and the listings, and checks the hooks fired against the hooks index directly.'),
+    text=('Proof (Coq, 14 theorems, every one closed under the global context, no depth bound). ADMISSIBLE histories = every '
+          'operation in any order (add / overwrite / rejected add incl. the name conflict that has already inserted its route '
+          '/ remove by rule, by name, by prefix "*" / add and remove hook / remove_method), a prefix removal "P*" only when no '
+          'installed hook pattern properly extends P (the property text restricts prefix removal to routes). FULL for all '
+          'admissible histories: C11_history_eq_fresh (the freshly built router — empty tree + surviving routes in index order '
+          '+ surviving hooks, same Route objects and indexes — exists, i.e. every re-insertion is accepted, and answers every '
+          'request exactly as the edited one: 404 / 405+Allow / rule, method, handler, kwargs and hook list; listings and '
+          'router[name] are the same indexes; router[{rule}] agrees), C11_hooks_fire_exactly (a route hook fires for exactly '
+          'the matched routes whose pattern extends the hook pattern, outermost first, at the position reached after that '
+          'prefix), C11_same_survivors_same_answers, C11_by_rule_is_index_lookup. For ALL histories: C11_remove_exact_effect '
+          '(RadiDict.remove in every mode with pruning and _try_merge keeps the tree well-formed and removes exactly the named '
+          'routes), C11_hook_install_keeps_routes, C11_history_tree_matches_index, C11_history_eq_fresh_partial (route part). '
+          'Tree-level: C11_lookup_collects_held_hooks, C11_hook_slots_insert, C11_remove_keeps_hooks (repaired F14), '
+          'C11_prefix_cut_keeps_hooks, C11_rebuild_accepted. NOT covered by a theorem: the 404 branch of Ombott.handler '
+          '(PARTIAL slot of the last collected hook with path[:1+pos] and param_values) — modelled (Router.fired_partial) and '
+          'compared by the correspondence only; and "freshly built" is formalised as rebuilding the tree from the indexes '
+          'with the same Route objects — re-running RadiRouter.add for every surviving route/method/name on the real code is '
+          'what the oracle does after every operation of the generated histories (resolve direct and through '
+          'Ombott.__call__ incl. hooks fired, router[name], router[{rule}], the listings).'),
     note=('Trusted: Coq kernel + vm_compute; extraction; the harness; filt as a section variable. The model is faithful to '
-          'the code with fixes F14, F15 and F33 (found while building this check). Oracle admissibility: prefix removal only '
-          'when no hook lies under the removed prefix (the property restricts it to routes). 404 partial-hook behaviour is '
-          'modelled and compared by the correspondence, not covered by a theorem.'),
-    technique='Coq proof (invariants over edit histories, induction on the tree) + correspondence + fresh-router oracle',
+          'the code with fixes F14, F15 and F33 (found while building this check). The model is tied to /repo by the '
+          'differential correspondence after EVERY operation of generated histories (incl. an inadmissible stream).'),
+    technique='Coq proof (invariants over edit histories, induction on the tree, rebuild-acceptance) + correspondence + fresh-router oracle',
     design_ref='DESIGN.md section 4, C11; Appendix A.4',
 )
